@@ -1110,6 +1110,9 @@ impl<'a> Decoder<'a> {
             return derr(format!("parameter {id} length {len} reaches past the end"), "7.4.3.5.3 rule (24)", &tag);
         }
         if len == 0 && zero_is_absent {
+            if self.sticky_origin {
+                self.r.origin = start;
+            }
             return Ok(None);
         }
         let (so, se) = (self.r.origin, self.r.end);
